@@ -169,6 +169,9 @@ PROPS["C01"]["generated"] = [{"module": "ScpiVerif.Props.C01Gen", "section": "le
 PROPS["C20"]["generated"] = [{"module": "ScpiVerif.Props.C20Gen", "section": "heap_c"}]
 PROPS["C11"]["generated"] = [{"module": "ScpiVerif.Props.C11Gen", "section": "regs_c"}]
 PROPS["C12"]["generated"] = [{"module": "ScpiVerif.Props.C12Gen", "section": "regs_c"}]
+PROPS["C06"]["generated"] = [{"module": "ScpiVerif.Props.C06Gen", "section": "result_c"}]
+PROPS["C01"]["generated"] = PROPS["C01"]["generated"] + [{"module": "ScpiVerif.Props.C01InputGen", "section": "input_c"}]
+PROPS["C08"]["generated"] = [{"module": "ScpiVerif.Props.C01InputGen", "section": "input_c"}]
 
 NOT_CLAIMED = {}
 
@@ -243,6 +246,10 @@ _T["C01"] = (_T["C01"][0] + " Generated tie (Props/C01Gen.lean, c_lex_no_oob / c
               _T["C01"][1], _T["C01"][2])
 for _k, (_a, _b, _c) in _T.items():
     PROPS[_k]["level_text"], PROPS[_k]["level_note"], PROPS[_k]["technique"] = _a, _b, _c
+# generated ties of parser.c (translate/c2lean_parser.py): mentioned in the level text of the properties they serve
+PROPS["C06"]["level_text"] += " The response framing functions of parser.c (writeData, flushData, writeDelimiter, writeNewLine, writeSemicolon, SCPI_ResultCharacters) are additionally TRANSLATED from the C text on every run (translate/c2lean_parser.py -> Gen/ResultC.lean) and proved to refine the hand model on its non-ghost projection (Props/C06Gen.lean: c_writeDelimiter_cases - ',' iff output_count > 0, ';' and reset iff < 0, nothing iff = 0; c_writeNewLine_cases - line ending and exactly one flush iff first_output is false; c_resultCharacters), so the per-call facts the framing theorem rests on hold of the C text as it is now."
+PROPS["C01"]["level_text"] += " SCPI_Input is additionally TRANSLATED from the C text on every run (translate/c2lean_parser.py -> Gen/InputC.lean, its three library calls as parameters instantiated with the hand model): Props/C01Gen.lean proves that its scan loop equals the hand model's inputLoop with every array access of the generated code in bounds, no wrapping conversion and sufficient fuel (c_input_loop, c_input_loop_wf), and that its overrun path is the hand model's (c_overrun_copies_nothing); the flush path and the copy path are evaluated on concrete contexts (kernel-checked examples), their general refinement proof is not finished."
+PROPS["C08"]["level_text"] += " The scan loop of SCPI_Input that these theorems are about is additionally tied to the C text by translation (Props/C01Gen.lean, c_input_loop: generated loop = inputLoop)."
 
 # properties whose theorem module is not complete yet are not claimed
 for _k in ():  # unclaimed
